@@ -286,6 +286,38 @@ def r6_registry(ctx):
               "is_unitless must compare the simplified dimensionality with dimensionless", node=f)
 
 
+def sweep_unit_attributes(ctx):
+    """thorough: every `units.<name>` / `default_units.<name>` / `constants.<name>` read in the package names something that exists"""
+    from ..dims import units_ns, constants_ns
+    from ..astu import param_names
+    uns, cns = units_ns(ctx.repo).extra, constants_ns().extra
+    n = bad = 0
+    for m in ctx.repo.all_modules():
+        unit_aliases = {k for k, (mod, attr) in m.imports.items() if attr == "default_units"}
+        const_aliases = {k for k, (mod, attr) in m.imports.items() if attr == "default_constants"}
+        for q, fn in m.functions.items():
+            ps = set(param_names(fn))
+            stored = {x.id for x in ast.walk(fn) if isinstance(x, ast.Name) and isinstance(x.ctx, ast.Store)}
+            for node in ast.walk(fn):
+                if not (isinstance(node, ast.Attribute) and isinstance(node.value, ast.Name) and isinstance(node.ctx, ast.Load)):
+                    continue
+                nm = node.value.id
+                ns = None
+                if (nm == "units" and "units" in ps and "units" not in stored) or (nm in unit_aliases and nm not in stored and nm not in ps):
+                    ns = uns
+                elif (nm == "constants" and "constants" in ps and "constants" not in stored) or (nm in const_aliases and nm not in stored and nm not in ps):
+                    ns = cns
+                if ns is None or node.attr.startswith("_") or node.attr in ("as_dict",):
+                    continue
+                n += 1
+                if ns.get(node.attr) is None:
+                    bad += 1
+                    ctx.note("%s:%d %s reads %s.%s, which neither `quantities` nor chempy.units defines (AttributeError when reached)" % (m.rel, node.lineno, q, nm, node.attr))
+    ctx.holds("chempy/**", "unit-attribute-sweep", sites=n, missing=bad)
+    if n < 40:
+        raise AnalysisError("unit attribute sweep found only %d sites" % n)
+
+
 RULES = [
     Rule("C09-R1", r1_derived, 22, "derived-unit table and module-level dimension dicts"),
     Rule("C09-R2", r2_chem_units, 18, "chemistry units: dimension and SI scale from the name"),
@@ -293,6 +325,7 @@ RULES = [
     Rule("C09-R4", r4_pairing, 20, "strip/re-attach pairing in the array helpers"),
     Rule("C09-R5", r5_not_swallowed, 12, "incompatible dimensions are not swallowed"),
     Rule("C09-R6", r6_registry, 24, "registry tables and registry product"),
+    Rule("C09-S1", sweep_unit_attributes, 1, "package-wide sweep: every units./constants. attribute exists (notes)", tier="thorough"),
 ]
 
 MUTANTS = [
